@@ -228,6 +228,19 @@ Example c09_nonvacuous :
   received w = [(0, 1, 9000); (0, 0, 9000)] /\ length (sent w) = 2%nat.
 Proof. vm_compute. repeat split. Qed.
 
+(* A zero-length datagram is a datagram: one route, one receive of length 0 with
+   the sender's address, then the queue is empty — remote and via loopback. *)
+Example c09_empty_datagram :
+  snd (run (init 2 4) [Bind 0 9001 Unspec; Bind 1 9000 Unspec; Bind 0 9000 Unspec;
+                       Send 0 9001 (HostIp 1, 9000) []; Deliver (0, 0);
+                       Send 0 9001 (Loop 1, 9000) []; LoopFlush 0 2;
+                       TryRecv 1 9000 8; TryRecv 1 9000 8; Readable 0 9000; TryRecv 0 9000 0]) =
+  [OUnit; OUnit; OUnit;
+   ORoutes SOk [{| r_via := Net; r_host := 1; r_src := (HostIp 0, 9001); r_dst := (HostIp 1, 9000) |}]; OUnit;
+   ORoutes SOk [{| r_via := Lo; r_host := 0; r_src := (Loop 1, 9001); r_dst := (Loop 1, 9000) |}]; OUnit;
+   ORecv 0 (HostIp 0, 9001) []; OErr 5; OReady true; ORecv 0 (Loop 1, 9001) []].
+Proof. vm_compute. reflexivity. Qed.
+
 Print Assumptions c09_reachable_wf.
 Print Assumptions c09_routes_sound.
 Print Assumptions c09_at_most_once.
@@ -243,3 +256,4 @@ Print Assumptions c09_sent_log.
 Print Assumptions c09_membership.
 Print Assumptions c09_consts.
 Print Assumptions c09_nonvacuous.
+Print Assumptions c09_empty_datagram.
